@@ -116,6 +116,26 @@ def pParamData : List (Kind × Nat × Bool) → Pr (List (Param B))
 
 def idC : Res B → Res B := id
 
+/-- `kn flags…` : `-1` = None, `0` = one module, `L ≥ 1` = a list of `L` entries (flag 1 = present, 0 = `None`) -/
+def pArg : Pr (GNStep.Arg Nat) := fun ts => do
+  match ts with
+  | t :: ts =>
+    let n ← Wire.int t
+    if n < 0 then return (GNStep.Arg.none, ts)
+    if n == 0 then return (GNStep.Arg.one 0, ts)
+    let L := n.toNat
+    let (fl, ts) ← pNats L ts
+    let entries := (List.range L).map fun j => if fl.getD j 0 != 0 then some j else none
+    return (GNStep.Arg.many entries, ts)
+  | [] => throw "arity"
+
+def selCode : GNStep.CorrSel Nat Nat → String
+  | .trivial => "T"
+  | .auto none => "AN"
+  | .auto (some j) => s!"A{j}"
+  | .user j => s!"U{j}"
+
+
 def opsC07 : List (String × Handler) := [
   ("c07.hcat", fun ts => do
       let (rows, ts) ← pNat ts
@@ -202,6 +222,70 @@ def opsC07 : List (String × Handler) := [
           let b := lmb m JT R
           let trials := (List.range ntr).map fun t => lmAk A0 (lams.toList.take (t + 1))
           return fmt ((List.range h.n).map b ++ trials.flatMap (flat2 h.n h.n))),
+  -- c07.config <kernel arg> <corrector arg>            -> entries of optimizer.corrector
+  ("c07.config", fun ts => do
+      let (ka, ts) ← pArg ts
+      let (ca, ts) ← pArg ts
+      if !ts.isEmpty then throw "arity"
+      return " ".intercalate ((configCorrectors ka ca).map selCode)),
+  -- c07.served nres <kernel arg> <corrector arg>       -> the corrector serving each residual | err raise
+  ("c07.served", fun ts => do
+      let (nres, ts) ← pNat ts
+      let (ka, ts) ← pArg ts
+      let (ca, ts) ← pArg ts
+      if !ts.isEmpty then throw "arity"
+      let sel := (List.range nres).map fun i => servedBy ka ca i
+      if sel.all Option.isSome then return " ".intercalate ((sel.filterMap id).map selCode) else throw "raise"),
+  -- c07.wsel hasCtor hasStep                            -> none | ctor | step
+  ("c07.wsel", fun ts => do
+      match ts with
+      | [a, b] =>
+        let c ← nat a; let s ← nat b
+        match selectWeight (if c != 0 then some "ctor" else none) (if s != 0 then some "step" else none) with
+        | some w => return w
+        | none => return "none"
+      | _ => throw "arity"),
+  -- c07.resid K n_1 … n_K hasT [flag_1 … flag_T(=nT entries)] outs… targets…   -> residuals | err raise
+  ("c07.resid", fun ts => do
+      let (K, ts) ← pNat ts
+      let (ns, ts) ← pNats K ts
+      let (hasT, ts) ← pNat ts
+      let (nT, ts) ← if hasT == 0 then pure (0, ts) else pNat ts
+      let (flags, ts) ← pNats nT ts
+      let rec outsP : List Nat → List String → Except String (List (Array B) × List String)
+        | [], ts => return ([], ts)
+        | n :: ns, ts => do
+          let (d, ts) ← pNums n ts
+          let (rest, ts) ← outsP ns ts
+          return (d :: rest, ts)
+      let (outs, ts) ← outsP ns ts
+      -- targets: entry j (j < nT) has the size of output j when present
+      let rec tgtP : List (Nat × Nat) → List String → Except String (List (Option (Array B)) × List String)
+        | [], ts => return ([], ts)
+        | (n, f) :: rest, ts => do
+          if f == 0 then
+            let (r, ts) ← tgtP rest ts
+            return (none :: r, ts)
+          else
+            let (d, ts) ← pNums n ts
+            let (r, ts) ← tgtP rest ts
+            return (some d :: r, ts)
+      let sizesT := (List.range nT).map fun j => (ns.getD j 0, flags.getD j 0)
+      let (tg, ts) ← tgtP sizesT ts
+      if !ts.isEmpty then throw "arity"
+      let targets : Option (List (Option (Nat → B))) := if hasT == 0 then none else some (tg.map fun o => o.map fn1)
+      match residualsOf (outs.map fn1) targets with
+      | none => throw "raise"
+      | some rs => return fmt ((rs.zip ns).flatMap fun p => (List.range p.2).map p.1)),
+  -- c07.lmcfg fmin fmax frej [min] [max] [rej]         -> min max reject
+  ("c07.lmcfg", fun ts => do
+      let (fl, ts) ← pNats 3 ts
+      let (lo, ts) ← if fl.getD 0 0 != 0 then do let (v, ts) ← pNums 1 ts; pure (some (v.getD 0 BigF.zero), ts) else pure (none, ts)
+      let (hi, ts) ← if fl.getD 1 0 != 0 then do let (v, ts) ← pNums 1 ts; pure (some (v.getD 0 BigF.zero), ts) else pure (none, ts)
+      let (rj, ts) ← if fl.getD 2 0 != 0 then do let (v, ts) ← pNat ts; pure (some v, ts) else pure (none, ts)
+      if !ts.isEmpty then throw "arity"
+      let c := lmConfig lo hi rj
+      return fmt [c.lo, c.hi] ++ s!" {c.reject}"),
   ("c07.update", fun ts => do
       let (P, ts) ← pNat ts
       let (specs, ts) ← pMany pParamSpec P ts
